@@ -33,6 +33,19 @@ type Violation struct {
 	Note    string    `json:"note,omitempty"`
 	Script  string    `json:"-"`
 	Threads bool      `json:"threads,omitempty"`
+	Alt     []*Violation `json:"-"` // further witnesses of the same assertion with other discrete choices
+	sig     string
+}
+
+// choiceSig: the discrete (Choice) part of a nondet log.
+func choiceSig(log []ndEntry) string {
+	s := ""
+	for _, e := range log {
+		if e.Kind == "choice" && !strings.HasPrefix(e.Name, "dump") {
+			s += fmt.Sprintf("%s=%d,", e.Name, e.N)
+		}
+	}
+	return s
 }
 
 // Leaf is a sampled completed path with a witness input (for native validation).
@@ -325,10 +338,26 @@ func (m *Machine) violate(label, site string, extra *Term) {
 	defer ex.mu.Unlock()
 	if v, ok := ex.vioKeys[key]; ok {
 		v.Count++
+		// keep a few more witnesses whose discrete choices differ: a failing input of one
+		// configuration may be masked natively (e.g. by a stubbed library function) while
+		// another configuration reproduces
+		if len(v.Alt) < 3 {
+			sig := choiceSig(m.ndlog)
+			fresh := sig != v.sig
+			for _, a := range v.Alt {
+				if a.sig == sig {
+					fresh = false
+				}
+			}
+			if fresh {
+				v.Alt = append(v.Alt, &Violation{Label: label, Site: site, Entry: v.Entry, Arg: v.Arg,
+					Values: append(concretise(m.ndlog, model), m.ufTable(model)...), Count: 1, Threads: m.par != nil, sig: sig})
+			}
+		}
 		return
 	}
 	v := &Violation{Label: label, Site: site, Entry: ex.stats.Entry, Arg: ex.stats.Arg,
-		Values: append(concretise(m.ndlog, model), m.ufTable(model)...), Trail: append([]int{}, m.trail...), Count: 1, Threads: m.par != nil}
+		Values: append(concretise(m.ndlog, model), m.ufTable(model)...), Trail: append([]int{}, m.trail...), Count: 1, Threads: m.par != nil, sig: choiceSig(m.ndlog)}
 	ex.vioKeys[key] = v
 	ex.stats.Violations = append(ex.stats.Violations, v)
 }
@@ -583,4 +612,44 @@ func (ex *Explorer) runInits() {
 	}()
 	ex.initSteps = m.steps
 	ex.initState = m.globals
+}
+
+// runDepInits executes the initialisers of a few small dependency packages whose tables library
+// code reads (unicode/utf8); their globals become read-only values shared by all paths.
+func (ex *Explorer) runDepInits() {
+	for _, p := range ex.prog.AllPackages() {
+		if p.Pkg.Path() != "unicode/utf8" {
+			continue
+		}
+		init := p.Func("init")
+		if init == nil || init.Blocks == nil {
+			continue
+		}
+		m := &Machine{ex: ex, prog: ex.prog, fnSteps: map[*ssa.Function]int{}, fnBranches: map[*ssa.Function]int{}}
+		saved := ex.stats
+		ex.stats = &RunStats{Unknowns: map[string]int{}}
+		m.resetPath(nil)
+		for name, mem := range p.Members {
+			if g, ok := mem.(*ssa.Global); ok {
+				v := zero(g.Type().Underlying().(*types.Pointer).Elem())
+				m.globals[g] = &v
+				_ = name
+			}
+		}
+		func() {
+			defer func() { recover() }()
+			// run the body directly (callFn would skip a dependency initialiser)
+			fr := &frame{fn: init, env: map[ssa.Value]Value{}}
+			fr.block = init.Blocks[0]
+			for fr.block != nil {
+				m.runFrame(fr)
+			}
+		}()
+		for _, mem := range p.Members {
+			if g, ok := mem.(*ssa.Global); ok {
+				ex.depGlobals[p.Pkg.Path()+"."+g.Name()] = m.globals[g]
+			}
+		}
+		ex.stats = saved
+	}
 }
